@@ -266,6 +266,14 @@ def navigation_check(chk, fails, dis, stats):
     for i in range(n):
         c, g = gen_check.valid_script(chk.seed + 4242, i, {"stmts_max": 2, "depth": 3, "ddepth": 2, "origins": 0.5})
         t = c["script"]
+        if i % 5 == 4:
+            # ill-typed but well-formed: a declared variable is found wherever it is used, whatever is wrong with the
+            # expression around it
+            t = t.rstrip("\n") + "\n" + ["set_tx_meta(\"k\", $lbl + $cnt)\n", "set_account_meta(@a, \"k\", $acc9 - $cnt)\n",
+                                        "set_tx_meta(\"k\", $cnt + $lbl)\n", "foo($lbl + $cnt, $acc9)\n"][(i // 5) % 4]
+            decl = "  string $lbl\n  number $cnt\n  account $acc9\n"
+            m_ = re.match(r"\s*vars\s*\{[ \t]*\n?", t)
+            t = (t[:m_.end()] + decl + t[m_.end():]) if m_ else ("vars {\n" + decl + "}\n" + t)
         if i % 3 == 1:
             # non-ASCII text (two- and three-byte characters, all in the basic plane: one column, one UTF-16 unit each) and tabs
             # in front of the tokens of a line: columns are counted in characters, not bytes
